@@ -9,8 +9,8 @@ from . import msgs as M
 from .build import E, T
 
 # stub S10: timestamps are concrete strings chosen by symbolic index
-STAMPS = ['2022-11-16T12:30:00', '2022-11-16T13:00:05', '2023-01-01T00:00:00']
-STAMP_VALUES = [datetime(2022, 11, 16, 12, 30, 0), datetime(2022, 11, 16, 13, 0, 5), datetime(2023, 1, 1)]
+STAMPS = ['2022-03-04T12:30:00', '2022-11-16T13:00:05', '2023-02-01T00:00:00']
+STAMP_VALUES = [datetime(2022, 3, 4, 12, 30, 0), datetime(2022, 11, 16, 13, 0, 5), datetime(2023, 2, 1)]
 
 # timing variants of a story: which of StoryDuration / TextTime / MediaTime exist
 VARIANTS = {
@@ -55,6 +55,8 @@ def timing_cell(P, A):
     N = P['N']
     variants = P['variants']
     ids = [A['s%d' % i] for i in range(N)]
+    if P.get('blank_id') is not None:
+        ids[P['blank_id']] = None          # <storyID/>: offsets are keyed by ID, a blank one is still a story
     sd = [A.get('sd%d' % i, 0) for i in range(N)]
     tt = [A.get('tt%d' % i, 0) for i in range(N)]
     mt_ = [A.get('mt%d' % i, 0) for i in range(N)]
@@ -196,7 +198,8 @@ def accessor_cell(P, A):
                 opt(f('io%d' % i), T('objID', obj)), opt(f('im%d' % i), T('mosID', 'mos.x')),
                 opt(f('ity%d' % i), T('objType', 'VIDEO')),
                 opt(f('in%d' % i), E('mosExternalMetadata', T('mosSchema', 'x'), E('mosPayload', E(
-                    'studioCommands', E('studioCommand', T('text', 'other'), type='cmd'),
+                    'studioCommands', E('studioCommand', T('text', 'untyped')),
+                    E('studioCommand', T('text', 'other'), type='cmd'),
                     E('studioCommand', T('text', note_t), type='note'))))))
         body = [T('p', slug), it1]
         if has_item2:
@@ -216,6 +219,9 @@ def accessor_cell(P, A):
     ro = B.running_order(stories, lead=3 if ed != 'absent' else 2, edstart=STAMPS[0] if ed == 'present' else None,
                          gap=P.get('gap'), trail=P.get('trail', 0))
     step = P.get('pre_op')
+    if step == 'roreplace':
+        B.prehist_replace(ro)      # same content, reached through RunningOrderReplace.merge
+        step = None
     if step:
         new = E('story', T('storyID', A['n0']), opt(step.endswith('timed'), B.timing_block(dur=num(5))),
                 T('p', slug), B.item(iid))
